@@ -73,7 +73,7 @@ def classify(cfg, obs):
 
 class _Base(common.Family):
   prop = 'C06'
-  max_steps = 900_000
+  max_steps = 3_000_000
 
   def _setup(self, cfg, sim, prefetched):
     import courier
@@ -128,7 +128,7 @@ class _Base(common.Family):
         'jump': (None if rng.random() < 0.8 else
                  {'after': rng.randrange(50, 3000), 'dt': rng.choice([100.0, 400.0])}),
         'sim': {'fine': rng.random() < 0.1, 'stay': rng.choice([0.0, 0.5, 0.8]),
-                'max_steps': 900_000},
+                'max_steps': 3_000_000},
     }
 
   def _liveness(self, cfg, out, failure, which):
